@@ -166,6 +166,8 @@ NAMED = {
     "parallel_sccs": (6, ((0, 1), (0, 2), (1, 3), (3, 1), (2, 4), (4, 2), (1, 5), (2, 5))),
     # pure self loop in the middle of a path
     "selfloop_path": (3, ((0, 1), (1, 1), (1, 2))),
+    # bowtie around a self-loop: two sources, two sinks (constraints can pair the "wrong" in- and out-arc)
+    "bowtie_selfloop": (5, ((0, 2), (1, 2), (2, 2), (2, 3), (2, 4))),
     # long 3-cycle with exit in the middle
     "three_cycle_mid_exit": (5, ((0, 1), (1, 2), (2, 3), (3, 1), (2, 4))),
 }
